@@ -174,6 +174,16 @@ type Endpoint struct {
 	Closed       bool
 	Accepted     bool
 
+	// StaleFECRisk: this session lives on an address pair that hosted another
+	// conversation before (reconnect); FECRecoveredAtStart is the library's
+	// recovery counter when it was created.
+	StaleFECRisk        bool
+	FECRecoveredAtStart uint64
+
+	// ReplacedOK: the listener is expected to close this session because its peer
+	// started a new conversation from the same address.
+	ReplacedOK bool
+
 	// RecoveredUnderWrongRatio: the library counted a FEC recovery while this
 	// endpoint's decoder used a ratio different from its peer's encoder.
 	RecoveredUnderWrongRatio bool
@@ -229,6 +239,10 @@ type World struct {
 	CheckOnce bool
 
 	lastRecovered uint64
+
+	// ReportCrossConv: report (instead of counting) the recorded finding "FEC
+	// recovery across conversations of one address pair".
+	ReportCrossConv bool
 
 	// TearingDown: the harness is closing everything; which error a call that is
 	// still blocked reports then (closed pipe or the transport's close error) is
